@@ -63,8 +63,14 @@ HAND = [
 ]
 
 
-def family_key(e):
-    return 'spec-tuple-typeerror' if e == 'TypeError' else 'resolution'
+def has_tuple_type(layers):
+    return any(p.get('ty') == 'Number' for l in layers for o in l['fns'] for p in o['params'])
+
+
+def family_key(e, layers):
+    """the recorded finding is matched narrowly: a TypeError out of resolution in a family that has a PythonType over
+    a tuple of classes; any other failure - also any other TypeError - is a violation"""
+    return 'spec-tuple-typeerror' if e == 'TypeError' and has_tuple_type(layers) else 'resolution'
 
 
 def compare(fam, call, model):
@@ -82,7 +88,7 @@ def compare(fam, call, model):
     r_out = real.get('err', real.get('id'))
     e_out = exp.get('err', exp_id)
     if r_out != e_out:
-        out.append(('oracle', family_key(real.get('err')),
+        out.append(('oracle', family_key(real.get('err'), fam.spec),
                     'real outcome %r, the written rules give %r' % (r_out, e_out)))
     elif real['log'] != exp['log']:
         out.append(('oracle', 'evaluation-log', 'real evaluation log %r, rules give %r (outcome %r)' % (
@@ -232,6 +238,8 @@ def run(env, res):
                 res.traces += 1 if models else 0
                 features(case, real, hist)
                 for kind, key, msg in fs[:1]:
+                    if key == 'spec-tuple-typeerror' and any(f.key == key for f in res.failures):
+                        continue            # the recorded finding: one shrunk instance is enough
                     if len(res.failures) < 6:
                         small = shrink(case, drv, kind, key)
                         fs2, _, _ = run_case(small, drv)
@@ -253,7 +261,7 @@ def run(env, res):
         batch.append((layers, fam, calls, cspecs))
         if len(batch) >= 200:
             flush()
-        if len(res.failures) >= 12:
+        if len([f for f in res.failures if f.key != 'spec-tuple-typeerror']) >= 12:
             break
     flush()
     res.extra['histogram'] = hist
